@@ -3,6 +3,7 @@ package main
 import (
 	"fmt"
 	"reflect"
+	"sync"
 	"time"
 	"unsafe"
 
@@ -23,34 +24,61 @@ type ringAcc struct {
 	n            int
 }
 
+// layout of SyncRing / item, found once by type and behaviour on a scratch ring (names are hints only):
+//   the slice field is the slot array; in a slot the uint32 field is the sequence number and the int64 field the value;
+//   after Push, Push, Pop on NewSync(4) the uint32 field that reads 2 is the tail counter and the one that reads 1 the head.
+var c01Lay struct {
+	once                       sync.Once
+	err                        string
+	headOff, tailOff, valsOff  uintptr
+	isz, posOff, valOff        uintptr
+}
+
+func c01Probe() {
+	r := ringz.NewSync[int64](4)
+	t := reflect.TypeOf(r)
+	p := unsafe.Pointer(&r)
+	vf, ok := PickField(t, []string{"values", "slots", "items", "buf"}, KindIs(reflect.Slice))
+	if !ok {
+		c01Lay.err = "SyncRing: slot array not found"
+		return
+	}
+	it := vf.Type.Elem()
+	pf, ok1 := PickField(it, []string{"pos", "seq"}, KindIs(reflect.Uint32))
+	xf, ok2 := PickField(it, []string{"value", "val"}, KindIs(reflect.Int64))
+	if it.Kind() != reflect.Struct || !ok1 || !ok2 {
+		c01Lay.err = "SyncRing: slot layout (uint32 sequence + value) not found"
+		return
+	}
+	before := IntFieldValues(t, p)
+	r.Push(1)
+	r.Push(2)
+	r.Pop()
+	now := IntFieldValues(t, p)
+	tf, ok3 := FieldWithValue(t, now, before, 2, "tail")
+	hf, ok4 := FieldWithValue(t, now, before, 1, "head")
+	if !ok3 || !ok4 || tf.Type.Kind() != reflect.Uint32 || hf.Type.Kind() != reflect.Uint32 {
+		c01Lay.err = "SyncRing: head/tail counters not found"
+		return
+	}
+	c01Lay.headOff, c01Lay.tailOff, c01Lay.valsOff = hf.Offset, tf.Offset, vf.Offset
+	c01Lay.isz, c01Lay.posOff, c01Lay.valOff = it.Size(), pf.Offset, xf.Offset
+}
+
 func newRingAcc(capReq int) *ringAcc {
+	c01Lay.once.Do(c01Probe)
+	if c01Lay.err != "" {
+		panic(c01Lay.err)
+	}
 	r := ringz.NewSync[int64](capReq)
 	a := &ringAcc{r: &r}
-	v := reflect.ValueOf(a.r).Elem()
-	f := func(name string) unsafe.Pointer {
-		sf, ok := v.Type().FieldByName(name)
-		if !ok {
-			panic("SyncRing field " + name + " not found")
-		}
-		return unsafe.Pointer(v.UnsafeAddr() + sf.Offset)
-	}
-	a.head = (*uint32)(f("head"))
-	a.tail = (*uint32)(f("tail"))
-	vals := v.FieldByName("values")
-	a.base = unsafe.Pointer(vals.Pointer())
-	a.n = vals.Len()
-	it := vals.Type().Elem()
-	a.isz = it.Size()
-	pf, ok := it.FieldByName("pos")
-	if !ok {
-		panic("item field pos not found")
-	}
-	a.posOff = pf.Offset
-	vf, ok := it.FieldByName("value")
-	if !ok {
-		panic("item field value not found")
-	}
-	a.valOff = vf.Offset
+	p := unsafe.Pointer(a.r)
+	a.head = (*uint32)(unsafe.Add(p, c01Lay.headOff))
+	a.tail = (*uint32)(unsafe.Add(p, c01Lay.tailOff))
+	sh := (*reflect.SliceHeader)(unsafe.Add(p, c01Lay.valsOff))
+	a.base = unsafe.Pointer(sh.Data)
+	a.n = sh.Len
+	a.isz, a.posOff, a.valOff = c01Lay.isz, c01Lay.posOff, c01Lay.valOff
 	return a
 }
 func (a *ringAcc) pos(i int) *uint32 { return (*uint32)(unsafe.Add(a.base, uintptr(i)*a.isz+a.posOff)) }
